@@ -138,21 +138,21 @@ static void dims_str(const flat *F, int f, char *buf, size_t n) {
 }
 
 /* margins, visible in the run log (C16-MARGINS line): err/allowance of passing and failing comparisons */
-static double mg_pass_val = 0, mg_fail_val = INFINITY, mg_pass_pred = 0, mg_fail_pred = INFINITY;
+static double mg_pass_val = 0, mg_fail_val = INFINITY, mg_pass_pred = 0, mg_fail_pred = INFINITY, mg_failmax_val = 0, mg_failmax_pred = 0;
 static long main_pid;
 static void mg_flush(void) {
   char fn[200]; snprintf(fn, sizeof fn, "/dev/shm/c16_%ld/w%ld/margins", main_pid, (long)getpid());
   FILE *f = fopen(fn, "w"); if (!f) return;
-  fprintf(f, "%.6e %.6e %.6e %.6e\n", mg_pass_val, mg_fail_val, mg_pass_pred, mg_fail_pred); fclose(f);
+  fprintf(f, "%.6e %.6e %.6e %.6e %.6e %.6e\n", mg_pass_val, mg_fail_val, mg_pass_pred, mg_fail_pred, mg_failmax_val, mg_failmax_pred); fclose(f);
 }
-static void mg_note(double ratio, double *pass, double *fail) {
+static void mg_note(double ratio, double *pass, double *fail, double *failmax) {
   if (ratio <= 1.0) { if (ratio > *pass) { *pass = ratio; mg_flush(); } }
-  else if (ratio < *fail) { *fail = ratio; mg_flush(); }
+  else { if (ratio < *fail) { *fail = ratio; mg_flush(); } if (isfinite(ratio) && ratio > *failmax) { *failmax = ratio; mg_flush(); } }
 }
 
 /* compare the saved fields of `got` against `want`; returns 1 if equal per the statement; msg describes the first difference */
-static int flat_compare(int kind, const flat *want, const flat *got, int unsaved, char *msg, size_t mlen, double *ratio) {
-  double worst = 0, worstfail = INFINITY; int ok = 1; msg[0] = 0;
+static int flat_compare(int kind, const flat *want, const flat *got, int unsaved, char *msg, size_t mlen, double *ratio, double *failmax) {
+  double worst = 0, worstfail = INFINITY, fmx = 0; int ok = 1; msg[0] = 0;
   for (int f = 0; f < want->nf; f++) {
     if (FT[kind][f].unsaved != unsaved) continue;
     int same = want->nd[f] == got->nd[f];
@@ -170,10 +170,11 @@ static int flat_compare(int kind, const flat *want, const flat *got, int unsaved
       if (ratio > worst) worst = ratio;
       if (ratio > 1.0) {
         if (ok) snprintf(msg, mlen, "field %s number %d: read back %.17g, written %.17g (|diff| %.3g, allowed %.3g)", FT[kind][f].name, i, g, w, err, allow);
-        ok = 0; if (ratio < worstfail) worstfail = ratio;
+        ok = 0; if (ratio < worstfail) worstfail = ratio; if (isfinite(ratio) && ratio > fmx) fmx = ratio;
       }
     }
   }
+  if (failmax) *failmax = fmx;
   if (ratio) *ratio = ok ? worst : worstfail;      /* passing: largest ratio; failing on a number: smallest failing ratio (inf if only dimensions differ) */
   return ok;
 }
@@ -348,7 +349,7 @@ static void do_del(int kind, void *m) { if (kind == K_PCA) { PCAMODEL *p = m; De
 extern int waitpid(int pid, int *status, int options);
 typedef struct {
   int mutated, other_changed, ok, has2, ok2, pred_done, pred_n, wj;
-  double val_ratio, pred_ratio, pv, sv, av;
+  double val_ratio, val_failmax, pred_ratio, pv, sv, av;
   uint64_t fh, gh;
   char msg[700], msg2[300];
 } stepres;
@@ -369,9 +370,9 @@ static void step_in_child(int fd, mdl *a, int p) {
   put(fd, "R", 1); alloc_used = 0; ticks_ = 0;
   void *r = do_read(kind, PATHS[p]);
   flatten(kind, r, &G);
-  R.ok = flat_compare(kind, &a->F, &G, 0, R.msg, sizeof R.msg, &R.val_ratio);
+  R.ok = flat_compare(kind, &a->F, &G, 0, R.msg, sizeof R.msg, &R.val_ratio, &R.val_failmax);
   R.gh = flat_hash(&G, 0);
-  if (kind == K_PCA) { R.has2 = 1; R.ok2 = flat_compare(kind, &a->F, &G, 1, R.msg2, sizeof R.msg2, NULL); }
+  if (kind == K_PCA) { R.has2 = 1; R.ok2 = flat_compare(kind, &a->F, &G, 1, R.msg2, sizeof R.msg2, NULL, NULL); }
   if (R.ok) {
     put(fd, "P", 1); alloc_used = 0; ticks_ = 0;
     int n = predict(a, r, pr);
@@ -447,10 +448,10 @@ static void body(void) {
       snprintf(key, sizeof key, "readback|%s|%s", KN[kind], cls[s]);
       vx_check(R->ok, key, "step %d of %d, Write%s(%s) to path %d after %d earlier write(s) to it, then Read%s: %s", s + 1, len, KN[kind], a->name, p, nprev[s], KN[kind], R->msg);
       if (!R->ok) vx_log("  readback differs: %s\n", R->msg);
-      mg_note(R->val_ratio, &mg_pass_val, &mg_fail_val);
+      mg_note(R->val_ratio, &mg_pass_val, &mg_fail_val, &mg_failmax_val); if (R->val_failmax > 1.0) mg_note(R->val_failmax, &mg_pass_val, &mg_fail_val, &mg_failmax_val);
       if (R->has2) vx_check(R->ok2, "unsaved-field|PCA|dmodx", "Write/ReadPCA(%s): %s (WritePCA stores no dmodx table)", a->name, R->msg2);
       if (R->pred_done) {
-        mg_note(R->pred_ratio, &mg_pass_pred, &mg_fail_pred);
+        mg_note(R->pred_ratio, &mg_pass_pred, &mg_fail_pred, &mg_failmax_pred);
         snprintf(key, sizeof key, "predict|%s|%s", KN[kind], cls[s]);
         vx_check(R->pred_ratio <= 1.0, key, "step %d: prediction of the model read back (%s) differs: %d numbers (expected %d), element %d is %.17g, the saved model gives %.17g (allowed %.3g)", s, a->name, R->pred_n, a->np, R->wj, R->pv, R->sv, R->av);
       }
@@ -493,8 +494,8 @@ static void rm_tree(long pid, double *mg) {
     for (size_t i = 0; i < g.gl_pathc; i++) {
       size_t l = strlen(g.gl_pathv[i]);
       if (mg && l > 8 && strcmp(g.gl_pathv[i] + l - 8, "/margins") == 0) {
-        FILE *f = fopen(g.gl_pathv[i], "r"); double w, x, y, z;
-        if (f) { if (fscanf(f, "%lf %lf %lf %lf", &w, &x, &y, &z) == 4) { mg[0] = fmax(mg[0], w); mg[1] = fmin(mg[1], x); mg[2] = fmax(mg[2], y); mg[3] = fmin(mg[3], z); } fclose(f); }
+        FILE *f = fopen(g.gl_pathv[i], "r"); double w, x, y, z, u, v;
+        if (f) { if (fscanf(f, "%lf %lf %lf %lf %lf %lf", &w, &x, &y, &z, &u, &v) == 6) { mg[0] = fmax(mg[0], w); mg[1] = fmin(mg[1], x); mg[2] = fmax(mg[2], y); mg[3] = fmin(mg[3], z); mg[4] = fmax(mg[4], u); mg[5] = fmax(mg[5], v); } fclose(f); }
       }
       unlink(g.gl_pathv[i]);
     }
@@ -518,9 +519,9 @@ static void sweep_stale(void) {
 void __asan_on_error(void) { if (vx_replaying() && main_pid == (long)getpid()) rm_tree(main_pid, NULL); }
 
 static void cleanup_and_margins(void) {
-  double mg[4] = {0, INFINITY, 0, INFINITY};
+  double mg[6] = {0, INFINITY, 0, INFINITY, 0, 0};
   rm_tree(main_pid, mg);
-  fprintf(stderr, "C16-MARGINS: numbers: largest passing |diff|/allowance = %.3g, smallest failing = %.3g; predictions: largest passing = %.3g, smallest failing = %.3g\n", mg[0], mg[1], mg[2], mg[3]);
+  fprintf(stderr, "C16-MARGINS: numbers: largest passing |diff|/allowance = %.3g, failing from %.3g to %.3g; predictions: largest passing = %.3g, failing from %.3g to %.3g (inf/0 = none)\n", mg[0], mg[1], mg[4], mg[2], mg[3], mg[5]);
 }
 
 int main(int argc, char **argv) {
